@@ -50,6 +50,66 @@ const smapPrelude = `
   (! (=> (and (not (smHasSeek p k)) (bvuge j k)) (not (select p j))) :pattern ((smHasSeek p k) (select p j)))))
 `
 
+// Derived facts about updates of the present array. Each is proved from the
+// axioms above by the lemma files /verif/spec/lemmas/{insert_max,delete_max,
+// delete_min,order,store}_*.smt2 (checked in every run of the properties that use
+// the map model); they are added as axioms only to spare the solvers the
+// inductive-looking instantiation work.
+const smapDerived = `
+(assert (forall ((p (Array (_ BitVec 64) Bool)) (n (_ BitVec 64)))
+  (! (=> (or (not (smNonEmpty p)) (bvugt n (smMax p)))
+         (and (smNonEmpty (store p n true)) (= (smMax (store p n true)) n)
+              (= (smMin (store p n true)) (ite (smNonEmpty p) (smMin p) n))
+              (not (smHasNext (store p n true) n))
+              (=> (smNonEmpty p) (and (smHasNext (store p n true) (smMax p)) (= (smNext (store p n true) (smMax p)) n)
+                                      (smHasPrev (store p n true) n) (= (smPrev (store p n true) n) (smMax p))))))
+     :pattern ((store p n true)))))
+(assert (forall ((p (Array (_ BitVec 64) Bool)) (n (_ BitVec 64)) (k (_ BitVec 64)))
+  (! (=> (and (or (not (smNonEmpty p)) (bvugt n (smMax p))) (select p k) (not (= k (smMax p))))
+         (and (= (smHasNext (store p n true) k) (smHasNext p k)) (= (smNext (store p n true) k) (smNext p k))))
+     :pattern ((smNext (store p n true) k)) :pattern ((smHasNext (store p n true) k)))))
+(assert (forall ((p (Array (_ BitVec 64) Bool)))
+  (! (=> (smNonEmpty p)
+         (and (= (smNonEmpty (store p (smMax p) false)) (smHasPrev p (smMax p)))
+              (=> (smNonEmpty (store p (smMax p) false))
+                  (and (= (smMax (store p (smMax p) false)) (smPrev p (smMax p)))
+                       (= (smMin (store p (smMax p) false)) (smMin p))
+                       (not (smHasNext (store p (smMax p) false) (smPrev p (smMax p))))))))
+     :pattern ((store p (smMax p) false)))))
+(assert (forall ((p (Array (_ BitVec 64) Bool)) (k (_ BitVec 64)))
+  (! (=> (and (smNonEmpty p) (select (store p (smMax p) false) k) (not (= k (smPrev p (smMax p)))))
+         (and (= (smHasNext (store p (smMax p) false) k) (smHasNext p k)) (= (smNext (store p (smMax p) false) k) (smNext p k))))
+     :pattern ((smNext (store p (smMax p) false) k)) :pattern ((smHasNext (store p (smMax p) false) k)))))
+(assert (forall ((p (Array (_ BitVec 64) Bool)))
+  (! (=> (smNonEmpty p)
+         (=> (smNonEmpty (store p (smMin p) false))
+             (and (= (smMin (store p (smMin p) false)) (smNext p (smMin p)))
+                  (= (smMax (store p (smMin p) false)) (smMax p)))))
+     :pattern ((store p (smMin p) false)))))
+(assert (forall ((p (Array (_ BitVec 64) Bool)) (k (_ BitVec 64)))
+  (! (=> (and (smNonEmpty p) (select (store p (smMin p) false) k))
+         (and (= (smHasNext (store p (smMin p) false) k) (smHasNext p k))
+              (=> (smHasNext p k) (= (smNext (store p (smMin p) false) k) (smNext p k)))))
+     :pattern ((smNext (store p (smMin p) false) k)) :pattern ((smHasNext (store p (smMin p) false) k)))))
+(assert (forall ((p (Array (_ BitVec 64) Bool)) (k (_ BitVec 64)))
+  (! (=> (select p k) (= (store p k true) p)) :pattern ((store p k true)))))
+(assert (forall ((p (Array (_ BitVec 64) Bool)) (k (_ BitVec 64)) (j (_ BitVec 64)))
+  (! (=> (and (select p k) (select p j) (bvult k j)) (and (smHasNext p k) (bvule (smNext p k) j)))
+     :pattern ((smNext p k) (select p j)))))
+(assert (forall ((p (Array (_ BitVec 64) Bool)) (k (_ BitVec 64)))
+  (! (=> (and (select p k) (smHasNext p k)) (and (smHasPrev p (smNext p k)) (= (smPrev p (smNext p k)) k)))
+     :pattern ((smNext p k)))))
+(assert (forall ((p (Array (_ BitVec 64) Bool)) (k (_ BitVec 64)))
+  (! (=> (and (select p k) (smHasPrev p k)) (and (smHasNext p (smPrev p k)) (= (smNext p (smPrev p k)) k)))
+     :pattern ((smPrev p k)))))
+(assert (forall ((p (Array (_ BitVec 64) Bool)))
+  (! (=> (smNonEmpty p) (and (not (smHasNext p (smMax p))) (not (smHasPrev p (smMin p))))) :pattern ((smNonEmpty p)))))
+(assert (forall ((p (Array (_ BitVec 64) Bool)) (k (_ BitVec 64)))
+  (! (=> (and (select p k) (not (smHasNext p k))) (= k (smMax p))) :pattern ((smHasNext p k)))))
+(assert (forall ((p (Array (_ BitVec 64) Bool)) (k (_ BitVec 64)))
+  (! (=> (select p k) (and (smHasSeek p k) (= (smSeek p k) k))) :pattern ((smSeek p k)))))
+`
+
 var presentSort = ArrSort(BV64, BoolSort)
 
 // VSMap is a pointer to an immutable sorted map.
@@ -170,7 +230,7 @@ func smapRecv(e *Exec, st *State, v Value) (VSMap, bool) {
 }
 
 func init() {
-	specPreludes["smNext"] = smapPrelude
+	specPreludes["smNext"] = smapPrelude + smapDerived
 	for _, k := range []string{"smHasNext", "smPrev", "smHasPrev", "smNonEmpty", "smMin", "smMax", "smHasSeek", "smSeek"} {
 		specPreludeAlias[k] = "smNext"
 	}
@@ -314,6 +374,23 @@ func init() {
 			env.e.specFns["smNext"] = true
 			return VInt{T: UF(uf[1], BV64, env.e.smPresent(env.st, m), k)}
 		}
+	}
+	// iterator position: itvalid(it) <=> !it.Done(); itcur(it) is the key the next Next()/Prev() returns
+	specFuncs["itvalid"] = func(env *Env, n *ECall) Value {
+		it, ok := env.eval(n.Args[0]).(VSIter)
+		if !ok {
+			env.fail("itvalid: expected a sorted-map iterator")
+		}
+		v, _ := env.e.iterGet(env.st, it)
+		return VBool{v}
+	}
+	specFuncs["itcur"] = func(env *Env, n *ECall) Value {
+		it, ok := env.eval(n.Args[0]).(VSIter)
+		if !ok {
+			env.fail("itcur: expected a sorted-map iterator")
+		}
+		_, c := env.e.iterGet(env.st, it)
+		return VInt{T: c}
 	}
 	specFuncs["smnonempty"] = func(env *Env, n *ECall) Value {
 		m := env.smapArg(n.Args[0])
